@@ -11,9 +11,11 @@ import (
 	"go/ast"
 	"go/token"
 	"go/types"
+	"regexp"
 	"strconv"
 	"strings"
 
+	"golang.org/x/tools/go/packages"
 	"google.golang.org/protobuf/proto"
 	"google.golang.org/protobuf/types/descriptorpb"
 )
@@ -308,6 +310,231 @@ func embeddedDescriptorGrounds(label string, emitted, request map[string]*descri
 			ok = proto.Equal(w, g)
 		}
 		out = append(out, Ground{Name: label + "/" + name + "/embedded-descriptor-equals-request", OK: ok, Text: "the file descriptor registered by the generated package equals the schema given to the generator (custom options included; source info excluded)"})
+	}
+	return out
+}
+
+// globalWriteGrounds (C11): no method of a generated message, of its fast-reflection view or of its list/map wrappers
+// (including the size/marshal/unmarshal closures built by ProtoMethods) assigns a package-level variable: shared
+// mutable state outside the message would be written by concurrent readers of different — or the same — messages.
+// Decided by resolving the root identifier of every assignment target through go/types.
+func globalWriteGrounds(pk *packages.Package) []Ground {
+	var out []Ground
+	n := 0
+	for _, f := range pk.Syntax {
+		for _, d := range f.Decls {
+			fd, ok := d.(*ast.FuncDecl)
+			if !ok || fd.Recv == nil || fd.Body == nil {
+				continue
+			}
+			recv := strings.TrimPrefix(types.ExprString(fd.Recv.List[0].Type), "*")
+			check := func(e ast.Expr, pos token.Pos) {
+				for {
+					switch x := e.(type) {
+					case *ast.ParenExpr:
+						e = x.X
+						continue
+					case *ast.SelectorExpr:
+						if id, ok := x.X.(*ast.Ident); ok {
+							if _, isPkg := pk.TypesInfo.Uses[id].(*types.PkgName); isPkg {
+								// otherpkg.Var = …
+								if v, ok := pk.TypesInfo.Uses[x.Sel].(*types.Var); ok && !v.IsField() {
+									n++
+									out = append(out, Ground{Name: fmt.Sprintf("%s/%s.%s/frame[no package-level variable is assigned]#%d", shortPkg(pk.PkgPath), recv, fd.Name.Name, n), OK: false,
+										Text: "methods of generated messages, views and wrappers assign no package-level variable", Detail: pk.Fset.Position(pos).String() + ": assigns " + v.Pkg().Name() + "." + v.Name()})
+								}
+								return
+							}
+						}
+						e = x.X
+						continue
+					case *ast.IndexExpr:
+						e = x.X
+						continue
+					case *ast.StarExpr:
+						e = x.X
+						continue
+					case *ast.Ident:
+						obj := pk.TypesInfo.Uses[x]
+						if v, ok := obj.(*types.Var); ok && v.Parent() == pk.Types.Scope() {
+							n++
+							out = append(out, Ground{Name: fmt.Sprintf("%s/%s.%s/frame[no package-level variable is assigned]#%d", shortPkg(pk.PkgPath), recv, fd.Name.Name, n), OK: false,
+								Text: "methods of generated messages, views and wrappers assign no package-level variable", Detail: pk.Fset.Position(pos).String() + ": assigns " + v.Name()})
+						}
+					}
+					return
+				}
+			}
+			ast.Inspect(fd.Body, func(nd ast.Node) bool {
+				switch s := nd.(type) {
+				case *ast.AssignStmt:
+					for _, l := range s.Lhs {
+						check(l, s.Pos())
+					}
+				case *ast.IncDecStmt:
+					check(s.X, s.Pos())
+				case *ast.UnaryExpr:
+					// &global handed to something that may write it (sync.Once-less lazy init helpers): flag address-taking of package variables
+					if s.Op == token.AND {
+						if id, ok := s.X.(*ast.Ident); ok {
+							if v, ok := pk.TypesInfo.Uses[id].(*types.Var); ok && v.Parent() == pk.Types.Scope() && !strings.HasPrefix(v.Name(), "file_") {
+								n++
+								out = append(out, Ground{Name: fmt.Sprintf("%s/%s.%s/frame[no package-level variable is assigned]#%d", shortPkg(pk.PkgPath), recv, fd.Name.Name, n), OK: false,
+									Text: "methods of generated messages, views and wrappers assign no package-level variable", Detail: pk.Fset.Position(s.Pos()).String() + ": takes the address of " + v.Name()})
+							}
+						}
+					}
+				}
+				return true
+			})
+		}
+	}
+	out = append(out, Ground{Name: shortPkg(pk.PkgPath) + "/frame[no package-level variable is assigned by a method]", OK: n == 0,
+		Text: fmt.Sprintf("no method of the generated package assigns (or takes the address of) a package-level variable (%d found)", n)})
+	return out
+}
+
+// typeTableGrounds (C19): the Go type table handed to protoimpl.TypeBuilder pairs every Go type with its own
+// descriptor.  TypeBuilder matches GoTypes to declarations by position in protobuf-go's "flattened ordering" (enums,
+// then messages: all top-level ones, then per message its nested ones, recursively), so the i-th entry of
+// file_*_goTypes must be the Go type of the i-th declaration of the embedded descriptor in that order (nil for map
+// entries), and the msgTypes index used by each message's ProtoReflect must be its position among the messages.
+func typeTableGrounds(pk *packages.Package) []Ground {
+	var out []Ground
+	fds, err := rawDescriptors([]*packages.Package{pk})
+	if err != nil {
+		return []Ground{{Name: shortPkg(pk.PkgPath) + "/type-table/descriptor", OK: false, Text: "embedded descriptor can be read", Detail: err.Error()}}
+	}
+	nonAlnum := regexp.MustCompile(`[^a-zA-Z0-9]`)
+	for _, fd := range fds {
+		type decl struct {
+			goName   string
+			mapEntry bool
+		}
+		var enums []string
+		var msgs []decl
+		var declE func(goPrefix string, m *descriptorpb.DescriptorProto)
+		declE = func(goPrefix string, m *descriptorpb.DescriptorProto) {
+			for _, e := range m.EnumType {
+				enums = append(enums, goPrefix+goCamel(e.GetName()))
+			}
+			for _, n := range m.NestedType {
+				declE(goPrefix+goCamel(n.GetName())+"_", n)
+			}
+		}
+		for _, e := range fd.EnumType {
+			enums = append(enums, goCamel(e.GetName()))
+		}
+		for _, m := range fd.MessageType {
+			declE(goCamel(m.GetName())+"_", m)
+		}
+		var declM func(goPrefix string, m *descriptorpb.DescriptorProto)
+		declM = func(goPrefix string, m *descriptorpb.DescriptorProto) {
+			for _, n := range m.NestedType {
+				msgs = append(msgs, decl{goPrefix + goCamel(n.GetName()), n.GetOptions().GetMapEntry()})
+			}
+			for _, n := range m.NestedType {
+				declM(goPrefix+goCamel(n.GetName())+"_", n)
+			}
+		}
+		for _, m := range fd.MessageType {
+			msgs = append(msgs, decl{goCamel(m.GetName()), false})
+		}
+		for _, m := range fd.MessageType {
+			declM(goCamel(m.GetName())+"_", m)
+		}
+		base := rawDescBase[pk.PkgPath+"\x00"+fd.GetName()]
+		if base == "" {
+			base = "file_" + nonAlnum.ReplaceAllString(fd.GetName(), "_")
+		}
+		name := shortPkg(pk.PkgPath) + "/" + fd.GetName() + "/type-table"
+		var lit *ast.CompositeLit
+		for _, f := range pk.Syntax {
+			for _, d := range f.Decls {
+				gd, ok := d.(*ast.GenDecl)
+				if !ok {
+					continue
+				}
+				for _, sp := range gd.Specs {
+					vs, ok := sp.(*ast.ValueSpec)
+					if ok && len(vs.Names) == 1 && vs.Names[0].Name == base+"_goTypes" && len(vs.Values) == 1 {
+						lit, _ = vs.Values[0].(*ast.CompositeLit)
+					}
+				}
+			}
+		}
+		if lit == nil {
+			out = append(out, Ground{Name: name + "/goTypes", OK: false, Text: base + "_goTypes is declared as a composite literal"})
+			continue
+		}
+		entry := func(e ast.Expr) string {
+			switch x := e.(type) {
+			case *ast.Ident:
+				return x.Name // nil
+			case *ast.CallExpr:
+				if p, ok := x.Fun.(*ast.ParenExpr); ok {
+					switch t := p.X.(type) {
+					case *ast.StarExpr:
+						return "*" + types.ExprString(t.X)
+					default:
+						return types.ExprString(t)
+					}
+				}
+			}
+			return "?"
+		}
+		okAll := len(lit.Elts) >= len(enums)+len(msgs)
+		detail := ""
+		for i := 0; okAll && i < len(enums)+len(msgs); i++ {
+			got := entry(lit.Elts[i])
+			want := ""
+			switch {
+			case i < len(enums):
+				want = enums[i]
+			case msgs[i-len(enums)].mapEntry:
+				want = "nil"
+			default:
+				want = "*" + msgs[i-len(enums)].goName
+			}
+			if got != want {
+				okAll = false
+				detail = fmt.Sprintf("entry %d is %s, the declaration at that position is %s", i, got, want)
+			}
+		}
+		out = append(out, Ground{Name: name + "/goTypes[i-th Go type == i-th declaration]", OK: okAll, Detail: detail,
+			Text: fmt.Sprintf("%s_goTypes lists the %d enums and %d messages of the file in protobuf-go's flattened declaration order", base, len(enums), len(msgs))})
+		// msgTypes index of every message's (slow)ProtoReflect
+		idx := map[string]int{}
+		for i, m := range msgs {
+			idx[m.goName] = i
+		}
+		for _, f := range pk.Syntax {
+			for _, d := range f.Decls {
+				fdl, ok := d.(*ast.FuncDecl)
+				if !ok || fdl.Recv == nil || fdl.Body == nil || (fdl.Name.Name != "slowProtoReflect" && fdl.Name.Name != "ProtoReflect") {
+					continue
+				}
+				recv := strings.TrimPrefix(types.ExprString(fdl.Recv.List[0].Type), "*")
+				want, isMsg := idx[recv]
+				if !isMsg {
+					continue
+				}
+				ast.Inspect(fdl.Body, func(n ast.Node) bool {
+					ie, ok := n.(*ast.IndexExpr)
+					if !ok {
+						return true
+					}
+					if id, ok := ie.X.(*ast.Ident); ok && id.Name == base+"_msgTypes" {
+						if bl, ok := ie.Index.(*ast.BasicLit); ok {
+							got, _ := strconv.Atoi(bl.Value)
+							out = append(out, Ground{Name: fmt.Sprintf("%s/%s.%s/msgTypes-index", name, recv, fdl.Name.Name), OK: got == want,
+								Text: fmt.Sprintf("%s.%s uses the message info at the message's own position %d", recv, fdl.Name.Name, want), Detail: fmt.Sprintf("index %d", got)})
+						}
+					}
+					return true
+				})
+			}
+		}
 	}
 	return out
 }
